@@ -246,6 +246,10 @@ def legacy_names():
     raise RuntimeError('no literal set of dot-less commands found in DispatchingShell.onecmd')
 
 
+def command_names():
+    return sorted(n[3:] for n in dir(shell.BQLShell) if n.startswith('do_'))
+
+
 def introspect():
     fields = [(f.name, f.type, f.default) for f in dataclasses.fields(shell.Settings)]
     return {
@@ -933,7 +937,9 @@ def _mk(name):
     return rec
 
 
-for _n in introspect()['commands']:
+# (only the command names are needed here; the fail-closed parts of introspect() belong to generate(), so that a
+# shell whose dispatch no longer has the expected shape is reported as a broken tie, not as an import error)
+for _n in command_names():
     setattr(Probe, 'do_' + _n, _mk(_n))
 
 PIECES = ['.', '.', '?', '!', ' ', ' ', '\t', 'set', 'SET', 'run', 'select', 'SELECT', 'EOF', 'help', 'x', '_', '1', ';',
@@ -982,7 +988,7 @@ def pure_cases(rng, n):
     lines = sorted(lines)
     model = coq_eval('c19c', [f'classify_out {cstr(l)}' for l in lines], 400)
     hist = {'empty': 0, 'query': 0, 'command': 0, 'legacy-command': 0, 'unknown-command': 0}
-    known = set(introspect()['commands'])
+    known = set(command_names())
     for l, m in zip(lines, model):
         a = classify_impl(l)
         count += 1
@@ -1353,7 +1359,7 @@ def replay(rec):
         m = core.coq_eval('c19c', ['Model.Shell'], [f'classify_out {cstr(rec["line"])}'])[0]
         a = classify_impl(rec['line'])
         mm = list(m)
-        if mm[0] == 2 and ''.join(map(chr, mm[2])) not in set(introspect()['commands']):
+        if mm[0] == 2 and ''.join(map(chr, mm[2])) not in set(command_names()):
             mm = [2, mm[1], mm[2], None]
         return a == mm
     return True
